@@ -282,6 +282,21 @@ Additions for nextflow/scripts/batchie.py (main() and the run_* command builders
                       literal has type `list T` - for a list whose items the source builds from values of several types (the
                       words of a command line: literals, paths, names).  Without the key a list literal has the type of its
                       first element and the others are not coerced, as before.
+Additions for data.py (Plate.merge and the one-line helpers of ScreenBase / Plate; C14 / C13 / C11 helper links):
+  cfg["nested_fields"]  True: stores THROUGH a chain of declared fields (cfg["fields"]) of a bound variable x, n >= 2:
+                          x.a1...an = e            the value is evaluated first (as in Python), then the objects along the chain are
+                                                   rebuilt from the inside out, `x.a1 := setter_n (x.a1...a(n-1)) e`, ..., and x is rebound;
+                                                   every ai must be declared for the type a(i-1) has (refused otherwise)
+                          x.a1...an[m] = v         with cfg["mask_store"], the innermost field a `list T` and m : list bool: numpy's
+                                                   boolean-mask assignment on the array held in that field ("array" template when
+                                                   v : list T, "scalar" when v : T), evaluated v first, then m; then stored as above
+                          (T1, ..., Tn) = e        a tuple target whose components are declared variables, `_` (discarded, any type)
+                                                   or (chains of) declared fields: e must have a tuple type of that arity; the
+                                                   components are bound to fresh names and stored from left to right
+                      A field's SETTER template may start with `!` on this path: it then denotes a `result owner` (a checked store,
+                      e.g. an id array that must not hold a NaN) and is bound with `dor`.  Aliasing is not modelled, as for
+                      cfg["fields"]: a second reference to an object along the chain goes stale (Plate.merge's `other.screen`).
+                      Without the key all these targets are refused as before.
 """
 import ast
 
@@ -920,6 +935,10 @@ class Tr:
                     if self.unify(patn, st.value, {}):
                         add(var)
                 for t in st.targets:
+                    if self.cfg.get("nested_fields") and self.chain_roots(t) is not None:      # x.a.b = e, x.a.b[m] = v, (x.a.b, _, y) = e
+                        for n in self.chain_roots(t):
+                            add(n)
+                        continue
                     if self.field_target(t) is not None:      # x.attr = e rebinds x
                         add(self.field_target(t))
                         continue
@@ -1194,6 +1213,13 @@ class Tr:
                     txt = "%slet %s : %s := %s in\n%slet %s := %s in\n" % (
                         ind, tgt.id, coq_type(vty), val_t.format(**args), ind, var, st_t.format(**args))
                     return self.bind_hoist(hoist, txt, ind) + self.block(rest, env2, k, ind)
+            if self.cfg.get("nested_fields"):      # stores through a chain of declared fields (x.a.b = e, x.a.b[m] = v, tuple targets)
+                if self.field_chain(tgt) is not None:
+                    return self.chain_assign(tgt, st.value, env, hoist, rest, k, ind)
+                if isinstance(tgt, ast.Subscript) and self.field_chain(tgt.value) is not None:
+                    return self.chain_mask_store(tgt, st.value, env, hoist, rest, k, ind)
+                if isinstance(tgt, ast.Tuple) and any(isinstance(x, ast.Attribute) for x in tgt.elts):
+                    return self.tuple_field_assign(tgt, st.value, env, hoist, rest, k, ind)
             if isinstance(tgt, ast.Subscript) and self.field_target(tgt.value) is not None:
                 return self.field_item_store(tgt, st.value, env, hoist, rest, k, ind)
             if self.field_target(tgt) is not None:
@@ -1573,6 +1599,122 @@ class Tr:
             ind, a, tag, getter.format(obj=x), self.need(ii, it, ("Z",), hoist), self.need(vv, vt, fty[1], hoist),
             ind, x, coq_type(owner), setter.format(obj=x, val=a))
         return self.bind_hoist(hoist, txt, ind) + self.block(rest, env, k, ind)
+
+    # ---- stores through a chain of declared fields (cfg["nested_fields"])
+    def field_chain(self, t):
+        """x.a1.a2...an with n >= 2, every ai a declared field and x a plain variable -> (x, [a1, ..., an]), else None"""
+        attrs = []
+        while isinstance(t, ast.Attribute) and t.attr in self.fields:
+            attrs.append(t.attr)
+            t = t.value
+        if isinstance(t, ast.Name) and len(attrs) >= 2:
+            return t.id, attrs[::-1]
+        return None
+
+    def chain_roots(self, t):
+        """the variables a target of the cfg["nested_fields"] forms rebinds, or None when [t] is not such a target"""
+        if self.field_chain(t) is not None:
+            return [self.field_chain(t)[0]]
+        if isinstance(t, ast.Subscript) and self.field_chain(t.value) is not None:
+            return [self.field_chain(t.value)[0]]
+        if isinstance(t, ast.Tuple) and any(isinstance(x, ast.Attribute) for x in t.elts):
+            out = []
+            for x in t.elts:
+                if isinstance(x, ast.Name):
+                    if x.id != "_":
+                        out.append(x.id)
+                elif self.field_target(x) is not None:
+                    out.append(self.field_target(x))
+                elif self.field_chain(x) is not None:
+                    out.append(self.field_chain(x)[0])
+                else:
+                    raise Unsupported("assignment target: " + ast.unparse(t))
+            return out
+        return None
+
+    def chain_getters(self, x, attrs, env):
+        """the terms x, x.a1, x.a1.a2, ... (each the getter of the next field applied to the previous term) and the type of the
+        innermost field; every field must be declared for the type the previous one has"""
+        cur, ty, terms = x, env.get(x), [x]
+        for a in attrs:
+            owner, fty, getter, _ = self.fields[a]
+            if ty != owner:
+                raise Unsupported("store through attribute %s of a %s (declared for %s)" % (a, ty, owner))
+            cur, ty = "(" + getter.format(obj=cur) + ")", fty
+            terms.append(cur)
+        return terms, ty
+
+    def chain_store(self, x, attrs, terms, val, env, ind):
+        """text of `x.a1...an = val` (val a term of the innermost field's type): the objects along the chain are rebuilt from the
+        inside out by the fields' setters and the variable x is rebound.  A setter template starting with `!` denotes a
+        `result owner` (a checked store)."""
+        txt, cur = "", val
+        for i in range(len(attrs) - 1, -1, -1):
+            owner, _, _, setter = self.fields[attrs[i]]
+            s = setter.format(obj=terms[i], val=cur)
+            tgt = x if i == 0 else self.new("o")
+            if setter.startswith("!"):
+                if self.M["type"] != "result":
+                    raise Unsupported("checked field store outside the default monad: " + attrs[i])
+                txt += "%sdor %s <- %s;\n" % (ind, tgt, setter[1:].format(obj=terms[i], val=cur))
+            else:
+                txt += "%slet %s : %s := %s in\n" % (ind, tgt, coq_type(owner), s)
+            cur = tgt
+        return txt
+
+    def chain_assign(self, tgt, value, env, hoist, rest, k, ind):
+        """x.a1...an = e"""
+        x, attrs = self.field_chain(tgt)
+        v, vt = self.expr(value, env, hoist)      # Python evaluates the right-hand side first
+        terms, fty = self.chain_getters(x, attrs, env)
+        txt = self.chain_store(x, attrs, terms, self.need(v, vt, fty, hoist), env, ind)
+        return self.bind_hoist(hoist, txt, ind) + self.block(rest, env, k, ind)
+
+    def chain_mask_store(self, tgt, value, env, hoist, rest, k, ind):
+        """x.a1...an[m] = v with the innermost field a `list T`, m : list bool (numpy boolean-mask assignment, cfg["mask_store"])"""
+        x, attrs = self.field_chain(tgt.value)
+        if self.cfg.get("mask_store") is None or self.M["type"] != "result" or isinstance(tgt.slice, (ast.Slice, ast.Tuple)):
+            raise Unsupported("item store through a chain of attributes: " + ast.unparse(tgt))
+        vv, vt = self.expr(value, env, hoist)      # right-hand side first, then the target's object and index expressions
+        terms, fty = self.chain_getters(x, attrs, env)
+        mm, mt = self.expr(tgt.slice, env, hoist)
+        if fty[0] != "list" or mt != ("list", ("bool",)):
+            raise Unsupported("item store through a chain of attributes that is not a boolean-mask store: " + ast.unparse(tgt))
+        if vt == fty:
+            term = self.cfg["mask_store"]["array"].format(a=terms[-1], m=mm, v=vv)
+        else:
+            term = self.cfg["mask_store"]["scalar"].format(a=terms[-1], m=mm, v=self.need(vv, vt, fty[1], hoist))
+        a = self.new("a")
+        txt = "%sdor %s <- %s;\n" % (ind, a, term) + self.chain_store(x, attrs, terms, a, env, ind)
+        return self.bind_hoist(hoist, txt, ind) + self.block(rest, env, k, ind)
+
+    def tuple_field_assign(self, tgt, value, env, hoist, rest, k, ind):
+        """(T1, ..., Tn) = e with every Ti a declared variable, `_`, or a (chain of) declared field(s) of a bound variable: the
+        components are bound to fresh names, then the stores run from left to right, as in Python"""
+        v, vt = self.expr(value, env, hoist)
+        if vt[0] != "tuple" or len(vt[1]) != len(tgt.elts):
+            raise Unsupported("tuple assignment of a %s to %s" % (vt, ast.unparse(tgt)))
+        tmps = ["_" if isinstance(x, ast.Name) and x.id == "_" else self.new("t") for x in tgt.elts]
+        txt = "%slet %s := %s in\n" % (ind, tuple_pat(tmps), v)
+        env2 = dict(env)
+        late = []      # unwraps needed by the components (bound after the tuple is taken apart)
+        for x, tmp, ty in zip(tgt.elts, tmps, vt[1]):
+            if isinstance(x, ast.Name) and x.id == "_":
+                continue
+            if isinstance(x, ast.Name):
+                if self.var_type(x.id) != ty:
+                    raise Unsupported("tuple assignment of a %s to %s, declared %s" % (ty, x.id, self.var_type(x.id)))
+                env2[x.id] = ty
+                txt += "%slet %s : %s := %s in\n" % (ind, x.id, coq_type(ty), tmp)
+                continue
+            chain = self.field_chain(x) or ((self.field_target(x), [x.attr]) if self.field_target(x) is not None else None)
+            if chain is None:
+                raise Unsupported("assignment target: " + ast.unparse(x))
+            terms, fty = self.chain_getters(chain[0], chain[1], env2)
+            val = self.need(tmp, ty, fty, late)
+            txt += self.bind_hoist(late, "", ind) + self.chain_store(chain[0], chain[1], terms, val, env2, ind)
+            del late[:]
+        return self.bind_hoist(hoist, txt, ind) + self.block(rest, env2, k, ind)
 
     # ---- defaultdict(list) buckets (cfg["defaultdict_list"])
     def dd_append(self, call):
